@@ -147,6 +147,7 @@ def generate(seed: int, tier: str = "quick") -> dict:
         descs["c:" + k] = c
     if "W0" in descs:
         descs["c:W0"] = dict(descs["W0"], of="c:D0")
+    gen.sanitize_descs(descs)
     cfg.update(descs=descs, fit=fit, new=new, params=params, chunks=chunks)
     cfg["rot_params"] = None
     if spec.rotator and rng.random() < 0.45:
